@@ -209,6 +209,9 @@ func (p *Peer) Close() {
 // run once the response has been written (e.g. to close the connection).
 type Responder func(pc *PeerConn, r *RecordedReq) (resp []byte, closeAfter bool)
 
+// Handled is returned by a Responder that has written its reply itself.
+var Handled = []byte{}
+
 // OKResponse is a minimal keep-alive 200.
 func OKResponse(body string) []byte {
 	return []byte("HTTP/1.1 200 OK\r\nContent-Length: " + strconv.Itoa(len(body)) + "\r\n\r\n" + body)
@@ -240,8 +243,10 @@ func HTTPHandler(resp Responder, onConnect func(pc *PeerConn, r *RecordedReq)) f
 			if b == nil {
 				return
 			}
-			if _, err := pc.Write(b); err != nil {
-				return
+			if len(b) > 0 { // Handled (empty, non-nil) = the responder wrote the reply itself
+				if _, err := pc.Write(b); err != nil {
+					return
+				}
 			}
 			if closeAfter {
 				return
